@@ -227,6 +227,13 @@ func parseClientHello(buf []byte) (*clientHello, error) {
 		return nil, err
 	}
 	if hello.echExt != nil && hello.echExt.Type == 1 {
+		// Section 5.1: the padding that follows the extensions of an
+		// EncodedClientHelloInner must be all zeros.
+		for _, p := range s {
+			if p != 0 {
+				return nil, ErrIllegalParameter
+			}
+		}
 		for _, p := range zeros {
 			if p != 0 {
 				return nil, ErrIllegalParameter
